@@ -16,9 +16,11 @@ Space
               WIDE_SPECS      jump laws so wide that the mass at the integer end points 1, 2, 5 is a sizeable part of the total
                               (Merton sigma_j = 0.6 and 3, HEM eta = 1.5 / 0.8, VG sigma = nu = 1 and nu = 50, CGMY g, m ~ 1):
                               a term of an antiderivative dropped / truncated far from the origin is visible only there
-              BOUNDARY_SPECS  boundary values the setters accept or the smallest values next to a rejected one: CGMY with
-                              g == 0, m == 0, both (no damping on a side; y = 0, 0.5, 1.2, 1.5; thorough: y = -0.5, 0, 1 too),
-                              g = 1e-3, c = 1e-8; HEM p = 1e-9, intensity = 0; Merton sigma_j = 1e-3 (mu_j = 0 and mu_j = 0.3),
+              BOUNDARY_SPECS  boundary values the setters accept or the smallest values next to a rejected one: CGMY without
+                              damping on a side, enumerated deliberately: (g == 0 | m == 0 | both) x y in {0, 0.5, 1, 1.5},
+                              every one directly constructed in both tiers (histories reinit / dill: four of them in quick, all
+                              in thorough), plus m == 0 with y = 1.2 (thorough: g == 0 with y = -0.5 too); CGMY g = 1e-3,
+                              c = 1e-8; HEM p = 1e-9, intensity = 0; Merton sigma_j = 1e-3 (mu_j = 0 and mu_j = 0.3),
                               intensity = 0; VG nu = 1e-3 and sigma = 1e-3
   histories   every model of the menu is judged as freshly constructed AND as reached through each construction history
               ("via", see `_build`); the property quantifies over models, not over how they were built:
@@ -43,7 +45,7 @@ Space
                 n=2  integrate_against_xx, integrate_against_xn(n=2)
                 n>=3 integrate_against_xn(n)
               directly constructed models also n = 8 (quick: Levy models) and n = 12 (thorough); not the models marked
-              "boundary" or with a restricted "ns"
+              "boundary" or with a restricted "ns" (CGMY with g = 1e-3)
   arg forms   the usual form of an end point is a Python float. On every route, after the sweep, the same interval is handed
               over as: Python ints, numpy int64, int / float mixed (the library's own `integrate_against_x(0, b1)`), numpy
               float64, 0-d float and 0-d int arrays, by keyword, and with the end point 0.0 written -0.0; `mass` gets the Real
@@ -53,7 +55,7 @@ Space
               (lists, arrays) must be unchanged after the call. Also on the truncated measure (first menu item and every item
               with a truncation form). Keys `C09:argform:...:form=<form>`.
   ties        every route on the degenerate interval [e, e] for every finite e of E must return 0 (e = 0: only where both
-              sides are integrable at 0; a route that RAISES on [0, 0] is counted `tie_at_origin_raises`, not judged)
+              sides are integrable at 0)
   truncations through LevyModel.truncate_levy_measure, two construction modes:
                 inplace   a model built anew (through the same history) is truncated
                 deepcopy  the judged, USED model is deep-copied, the copy truncated and its representation set to TILDE
@@ -116,23 +118,29 @@ Tolerances
 Violation keys of a model reached through a history end in `:via=<history>`; truncated keys carry `:nested` and / or
 `:copy-then-truncate`; tools keys of the second pass end in `:interleaved`.
 
-Boundary models (CGMY with g == 0 or m == 0, spec flag "boundary"): several closed forms of the library degenerate there
-  (integrate_against_x: 0.0 ** negative raises ZeroDivisionError for y < 1; mass for y = 0 and first moment for y = 1:
-  exp1(0) - exp1(0) = NaN). A route that raises ZeroDivisionError / OverflowError or returns NaN on such a model is counted
-  `boundary_route_degenerate` and noted, never alarmed; every finite value is judged like any other (the second moment on
-  bounded intervals, the mass for y != 0, the first moment for y > 1, all n >= 3).
+Undamped CGMY (g == 0 or m == 0, spec flag "boundary"; accepted by the `positive` setters; a Levy measure for 0 < y < 2):
+  several closed forms of the library degenerate on the undamped side. On an interval that meets it
+    * a route that RAISES ZeroDivisionError / OverflowError (integrate_against_x for y < 1: 0.0 ** negative) is a refusal:
+      counted `boundary_route_degenerate` and noted, not judged;
+    * a route that silently returns NaN where the integral is finite (mass for y = 0 and y = 1, first moment for y = 1:
+      exp1(0) - exp1(0), 0 * exp1(0)) violates the statement: key
+      `C09:value:cgmy:<route>:nan-on-an-undamped-side:<g=0|m=0|g=m=0>:<y class>:<bounded|unbounded>[:via=...]` - an OPEN known
+      finding (pattern `C09:value:cgmy:*:nan-on-an-undamped-side:*`); the degenerate intervals [e, e] of that side too;
+    * every finite value is judged like any other, with the ordinary keys `C09:value:cgmy-<y class>:...` (the second moment on
+      bounded intervals, the mass for y not in {0, 1}, the first moment for y > 1, all n >= 3);
+  half-lines of the undamped side are in scope where the moment is finite (power-law tail rule). In the truncated sub-check
+  (which isolates the clipping and leaves the base formula to `value`) a NaN / refusal on either side is counted.
 
-Not covered / outside the alphabet: a > b; [0, 0] where a route raises; a query that a truncation ending AT the origin
+Not covered / outside the alphabet: a > b; a query that a truncation ending AT the origin
   clamps to [0, 0] while |x|^n nu is not integrable at 0 (the base route returns NaN / inf there; counted
   `truncated_tie_at_origin_out_of_scope`); [e, e] with e infinite; intervals on which the n-th
   moment diverges (at 0 or in a power-law tail); odd n sign on straddling intervals; parameter values and end points off the
   lattice; n > 5 except 8 / 12 on directly constructed models; one-element arrays / lists as end points of the measure routes
   and 0-d arrays for `mass` (rejected by the unchanged tree: TypeError in scipy quad, IndexError); float32 end points (not the
   same numbers); a list / array handed to truncate_levy_measure and modified by the caller afterwards (the measure keeps the
-  object it was given; the statement is silent); copy.copy of a model (shares the triplet by construction); Merton with
-  sigma_j = 1e-3 and mu_j = 0.3 for n >= 3 and CGMY with g = 1e-3 for n >= 8 ("ns" of the spec: the generic quadrature
-  fall-back misses a narrow law away from its split points 0, +-1 / loses accuracy on a tail of length 1/g; recorded
-  weaknesses, reported with a proposed fix); HEM with p > 1 (accepted by the setter, not a measure); p = 0 in HEM, mu_j < 0
+  object it was given; the statement is silent); copy.copy of a model (shares the triplet by construction); CGMY with
+  g = 1e-3 for n >= 8 ("ns" of the spec: the generic quadrature fall-back loses accuracy, 8e-6 relative, on a tail of length
+  1/g; a recorded weakness); HEM with p > 1 (accepted by the setter, not a measure); p = 0 in HEM, mu_j < 0
   in Merton, sigma = 0 in VG, eta1 = 1 in HEM (rejected by the setters / constructors); a model whose parameter object is mutated AFTER the model was constructed and
   that is used without being rebuilt (the library always constructs a new model from the updated object: see the comment
   in run_default_calibration); intermediate models of the "calib" history are used but not judged (a constructor that
@@ -172,8 +180,9 @@ ASSUMPTIONS = [
     "deepcopy of a model, truncate_levy_measure, set_representation); intermediate models of a history are used, not judged",
     "argument forms: only forms the unchanged tree accepts are enumerated (scalars of the numeric tower, numpy scalars, 0-d arrays, "
     "keywords; sequences only for the array form of mass); the oracle is the value of the usual form (Python floats)",
-    "CGMY without damping on a side (g == 0 / m == 0): a route that raises ZeroDivisionError / OverflowError or returns NaN is "
-    "counted (boundary_route_degenerate), not judged; finite values are judged",
+    "CGMY without damping on a side (g == 0 / m == 0): a route that raises ZeroDivisionError / OverflowError on an interval of "
+    "that side is a counted refusal (boundary_route_degenerate); a silent NaN is a violation (keys "
+    "C09:value:cgmy:<route>:nan-on-an-undamped-side:...); finite values are judged with the ordinary keys",
 ]
 CHUNK = 1
 
@@ -231,33 +240,31 @@ WIDE_SPECS = [
 ]
 # boundary values of the parameters that the setters accept ("positive" = >= 0) or that are next to a rejected one.
 # "boundary": True marks CGMY without damping on a side (g == 0 / m == 0): a legal parameter value for which several closed
-# forms of the library degenerate (0 ** negative, exp1(0) - exp1(0)); there a route that RAISES or returns NaN is counted
-# (`boundary_route_degenerate`) and noted, never alarmed; a finite value is judged like any other.
-# "ns" restricts the moment orders of a spec (Merton with a narrow jump law away from the split points of the quadrature
-# fall-back: n >= 3 is a recorded weakness of that fall-back, see the module docstring).
-BOUNDARY_SPECS = [
-    {"family": "cgmy", "exp": False, "boundary": True, "params": {"c": 1.0, "g": 0.0, "m": 20.0, "y": 0.5}},
-    {"family": "cgmy", "exp": False, "boundary": True, "params": {"c": 1.0, "g": 0.0, "m": 20.0, "y": 1.5}},
+# forms of the library degenerate (0 ** negative, exp1(0) - exp1(0)); there a route that RAISES is a counted refusal
+# (`boundary_route_degenerate`), a silent NaN is a violation with its own key family (an open known finding), a finite value is
+# judged like any other. "ns" restricts the moment orders of a spec (see the module docstring).
+UNDAMPED_CGM = [(1.0, 0.0, 20.0), (1.0, 15.0, 0.0), (0.3, 0.0, 0.0)]  # g == 0, m == 0, both
+UNDAMPED_Y = [0.0, 0.5, 1.0, 1.5]
+# the deliberate enumeration of the undamped CGMY measures: (g == 0, m == 0, both) x y in {0, 0.5, 1, 1.5}, every one directly
+# constructed in both tiers; the construction histories (reinit, dill) for UNDAMPED_TWINS in quick and for all in thorough
+UNDAMPED_SPECS = [{"family": "cgmy", "exp": False, "boundary": True, "params": {"c": c, "g": g, "m": m, "y": y}}
+                  for (c, g, m) in UNDAMPED_CGM for y in UNDAMPED_Y]
+UNDAMPED_TWINS = [(0.0, 20.0, 0.5), (15.0, 0.0, 1.0), (0.0, 0.0, 1.5), (15.0, 0.0, 0.0)]  # (g, m, y)
+BOUNDARY_SPECS = UNDAMPED_SPECS + [
     {"family": "cgmy", "exp": False, "boundary": True, "params": {"c": 1.0, "g": 15.0, "m": 0.0, "y": 1.2}},
-    {"family": "cgmy", "exp": False, "boundary": True, "params": {"c": 0.3, "g": 0.0, "m": 0.0, "y": 0.5}},
-    {"family": "cgmy", "exp": False, "boundary": True, "params": {"c": 0.3, "g": 6.0, "m": 0.0, "y": 0.0}},
     {"family": "cgmy", "exp": False, "ns": NS_SMALL, "params": {"c": 1.0, "g": 1e-3, "m": 20.0, "y": 1.5}},
     {"family": "cgmy", "exp": False, "params": {"c": 1e-8, "g": 15.0, "m": 20.0, "y": 0.5}},
     {"family": "hem", "exp": False, "params": {"sigma": 0.1, "p": 1e-9, "eta1": 10.0, "eta2": 40.0, "intensity": 5.0}},
     {"family": "hem", "exp": False, "params": {"sigma": 0.1, "p": 1.0, "eta1": 10.0, "eta2": 40.0, "intensity": 0.0}},
     {"family": "merton", "exp": False, "params": {"sigma": 0.1, "sigma_j": 1e-3, "mu_j": 0.0, "intensity": 3.0}},
-    {"family": "merton", "exp": False, "ns": [0, 1, 2], "params": {"sigma": 0.1, "sigma_j": 1e-3, "mu_j": 0.3, "intensity": 3.0}},
+    {"family": "merton", "exp": False, "params": {"sigma": 0.1, "sigma_j": 1e-3, "mu_j": 0.3, "intensity": 3.0}},
     {"family": "merton", "exp": False, "params": {"sigma": 0.1, "sigma_j": 0.05, "mu_j": 0.3, "intensity": 0.0}},
     {"family": "vg", "exp": False, "params": {"sigma": 0.2, "nu": 1e-3, "theta": 0.0}},
     {"family": "vg", "exp": False, "params": {"sigma": 1e-3, "nu": 0.2, "theta": 0.1}},
 ]
 BOUNDARY_SPECS_THOROUGH = [
-    {"family": "cgmy", "exp": False, "boundary": True, "params": {"c": 1.0, "g": 0.0, "m": 20.0, "y": 1.0}},
-    {"family": "cgmy", "exp": False, "boundary": True, "params": {"c": 1.0, "g": 0.0, "m": 20.0, "y": 0.0}},
     {"family": "cgmy", "exp": False, "boundary": True, "params": {"c": 1.0, "g": 0.0, "m": 20.0, "y": -0.5}},
-    {"family": "cgmy", "exp": False, "boundary": True, "params": {"c": 1.0, "g": 15.0, "m": 0.0, "y": 0.5}},
-    {"family": "cgmy", "exp": False, "boundary": True, "params": {"c": 1.0, "g": 15.0, "m": 0.0, "y": 1.0}},
-    {"family": "cgmy", "exp": False, "boundary": True, "params": {"c": 0.3, "g": 0.0, "m": 0.0, "y": 1.5}},
+    {"family": "cgmy", "exp": False, "boundary": True, "params": {"c": 0.3, "g": 6.0, "m": 0.0, "y": 0.0}},
     {"family": "cgmy", "exp": False, "ns": NS_SMALL, "params": {"c": 1.0, "g": 1e-3, "m": 1e-3, "y": 0.5}},
 ]
 NS = [0, 1, 2, 3, 4, 5]
@@ -313,9 +320,14 @@ def cases(tier):
     twins = [s for s in with_reinit(specs) if s.get("via") == "reinit"]
     assert len(twins) == len(specs), "with_reinit must give one twin per 1-d spec"
     variants = list(specs) + twins + [dict(s, via=v) for v in VIAS if v != "reinit" for s in specs]
-    variants += with_reinit(edges)
+    def twinned(s):  # quick: the construction histories of the undamped CGMY enumeration only for UNDAMPED_TWINS
+        p = s["params"]
+        enumerated = bool(s.get("boundary")) and (p["c"], p["g"], p["m"]) in UNDAMPED_CGM and p["y"] in UNDAMPED_Y
+        return thorough or not enumerated or (p["g"], p["m"], p["y"]) in UNDAMPED_TWINS
+
+    variants += [v for v in with_reinit(edges) if not v.get("via") or twinned(v)]
     # dill round trip (original re-parametrised afterwards): Levy specs in quick, every spec in thorough
-    variants += [dict(s, via="dill") for s in specs + edges if thorough or not s.get("exp")]
+    variants += [dict(s, via="dill") for s in specs + edges if (thorough or not s.get("exp")) and twinned(s)]
     # integer-valued parameters handed over as Python ints: quick = the first such spec of every family / branch of the
     # activity index, thorough = every spec that has an integer-valued parameter
     seen = set()
@@ -702,6 +714,14 @@ def _flags_finite_at_zero(nu, n):
 _DEGENERATE_RAISES = ("raises-ZeroDivisionError", "raises-OverflowError")
 
 
+def _undamped(spec):
+    """(label, meets) for a CGMY spec without damping on a side: label in 'g=0' | 'm=0' | 'g=m=0'; meets(a, b) says whether
+    [a, b] meets an undamped half-line (the origin belongs to both)"""
+    g0, m0 = spec["params"].get("g") == 0, spec["params"].get("m") == 0
+    label = "g=m=0" if (g0 and m0) else ("g=0" if g0 else "m=0")
+    return label, (lambda a, b: (g0 and a <= 0) or (m0 and b >= 0))
+
+
 def _failure_class(v, ref, tol):
     if math.isnan(v):
         return "nan"
@@ -769,6 +789,7 @@ def _sub_model(sh, case):
             sh.count("scope_tail_moment_diverges")
             sh.cls(f"out-of-scope:{fam}:n={n}:tail-power-law")
     boundary = bool(spec.get("boundary"))
+    und, meets = _undamped(spec) if boundary else ("", lambda a, b: False)
 
     def elem_in_scope(k):
         lo, hi = E[k], E[k + 1]
@@ -826,11 +847,20 @@ def _sub_model(sh, case):
             kind, v, used_quad = _call(model, nu, route, a, b, n)
             sh.count("evaluations")
             sh.cls("route-uses-quad" if used_quad else "route-closed-form")
-            if boundary and (kind in _DEGENERATE_RAISES or (kind == "ok" and math.isnan(v))):
-                # a side without damping: the closed form degenerates (0 ** negative, exp1(0) - exp1(0)); recorded, not judged
+            if boundary and meets(a, b) and kind in _DEGENERATE_RAISES:
+                # a side without damping: the closed form refuses (0.0 ** negative); a counted refusal, not judged
                 sh.count("boundary_route_degenerate")
-                sh.cls(f"boundary-degenerate:{fam}:{route}:n={n}:{'nan' if kind == 'ok' else kind}")
+                sh.cls(f"boundary-degenerate:{fam}:{route}:n={n}:{kind}")
                 degenerate.add(route)
+                continue
+            if boundary and meets(a, b) and kind == "ok" and math.isnan(v):
+                # ... but a silent NaN where the integral is finite violates the statement (exp1(0) - exp1(0), 0 * inf)
+                sh.cls(f"boundary-nan:{fam}:{route}:n={n}")
+                sh.violation(f"C09:value:cgmy:{route}:nan-on-an-undamped-side:{und}:{fam[5:]}:"
+                             f"{'unbounded' if (math.isinf(a) or math.isinf(b)) else 'bounded'}{vsfx}",
+                             f"{label}: {route}({a}, {b}{', n=%d' % n if route.endswith('xn') else ''}) = nan but the integral of "
+                             f"x^{n} nu(x) over [{a}, {b}] is {r!r} (+-{err:.1e}); no exponential damping on a side ({und})",
+                             {"a": a, "b": b, "n": n, "route": route, "reference": r, "reference_error": err})
                 continue
             if kind != "ok":
                 sh.violation(f"C09:value:{fam}:{route}:{kind}:n={n}:{cls}{sfx}",
@@ -876,14 +906,15 @@ def _sub_model(sh, case):
                     continue
                 kind, v, used_quad = _call(model, nu, route, e, e, n)
                 sh.count("evaluations")
-                if e == 0.0 and kind != "ok":
-                    # the point interval AT the singularity: recorded, not judged (CGMY with y < 0: integrate(0.0, 0.0) recurses
-                    # without end - reported as a finding of the build; the statement speaks of intervals)
-                    sh.count("tie_at_origin_raises")
-                    sh.cls(f"tie-at-origin:{fam}:{route}:{kind}")
-                    continue
-                if boundary and (kind != "ok" or math.isnan(v)):
+                if e == 0.0:
+                    sh.cls(f"tie-at-origin:{fam}:{route}")
+                if boundary and meets(e, e) and kind in _DEGENERATE_RAISES:
                     sh.count("boundary_route_degenerate")
+                    continue
+                if boundary and meets(e, e) and kind == "ok" and math.isnan(v):
+                    sh.violation(f"C09:value:cgmy:{route}:nan-on-an-undamped-side:{und}:{fam[5:]}:bounded{vsfx}",
+                                 f"{label}: {route}({e}, {e}) = nan; the integral over a point is 0; no exponential damping on a "
+                                 f"side ({und})", {"a": e, "b": e, "n": n, "route": route})
                     continue
                 if kind != "ok" or not (abs(v) <= _tol(0.0, scale, used_quad)):
                     fc = kind if kind != "ok" else _failure_class(v, 0.0, 0.0)
@@ -910,8 +941,8 @@ def _sub_model(sh, case):
         sh.outcome((label, n, route, [round(v, 12) if math.isfinite(v) else repr(v) for v, _ in list(vals.values())[:6]]))
 
     if degenerate:
-        sh.note(f"{label}: n={n}: route(s) {sorted(degenerate)} raise / return NaN on intervals of the undamped side (g == 0 or "
-                f"m == 0): counted as boundary_route_degenerate, not judged")
+        sh.note(f"{label}: n={n}: route(s) {sorted(degenerate)} raise ZeroDivisionError / OverflowError on intervals of the undamped "
+                f"side ({und}): counted as boundary_route_degenerate (a refusal), not judged")
     if compared:
         sh.nontriv()
     if n in (1, 3) and spec["family"] in ("vg", "hem") and not spec["params"]:
